@@ -123,6 +123,11 @@ def objects(draw, max_sections=5):
         size = len(expand(sections[si - 1][1]))
         symbols.append([f"sym{q}", si, draw(st.integers(0, max(0, size - 1))), draw(st.sampled_from(["func", "func", "func", "object"]))])
     desc = {"bits": bits, "sections": sections, "symbols": symbols}
+    if draw(st.integers(0, 2)) == 0:
+        # a linked file (executable or shared object) instead of a relocatable one: every section at a load address, so addresses
+        # do not restart per section, run to 8 / 16 digits, and branch targets are absolute
+        base = draw(st.sampled_from([0x1000, 0x401000, 0x7F12345000, 0xFFFFFFFF81000000, 0xFFFFFFFFFFFFF000] if bits == 64 else [0x1000, 0x8048000, 0xC0100000, 0xFFFFF000]))
+        desc["linked"] = {"etype": draw(st.sampled_from([2, 2, 3])), "base": base, "gap": draw(st.sampled_from([0, 0x10, 0x1000]))}
     if draw(st.integers(0, 5)) == 0:
         # cosmetic metadata objdump complains about on stderr ("warning: ... corrupt GNU_PROPERTY_TYPE") while it still exits 0
         # and prints the complete disassembly
@@ -140,4 +145,13 @@ def build_object(desc):
         d = {"corrupt-size": struct.pack("<II", 0xC0000002, 8) + b"\x03\0\0\0", "short": b"\x01\x02\x03",
              "unsupported-type": struct.pack("<II", 5, 4) + b"\1\0\0\0\0\0\0\0"}[desc["bad_note"]]
         secs.append((".note.gnu.property", struct.pack("<III", 4, len(d), 5) + b"GNU\0" + d, False, 7))
-    return make_elf(secs, [tuple(s) for s in desc["symbols"]], bits=desc["bits"])
+    addrs, etype = None, 1
+    if desc.get("linked"):
+        ln = desc["linked"]
+        etype = ln["etype"]
+        a = ln["base"]
+        addrs = []
+        for sec in secs:
+            addrs.append(a & ((1 << desc["bits"]) - 1))
+            a += ((len(sec[1]) + 15) & ~15) + ln["gap"]
+    return make_elf(secs, [tuple(s) for s in desc["symbols"]], bits=desc["bits"], addrs=addrs, etype=etype)
